@@ -98,6 +98,9 @@ class Spec:
         # concat: right-hand sides and global parameter values are given through CONCATENATIONS of symbols
         # (ocp.set_der(vertcat(x1, x2), vertcat(f1, f2)), ocp.set_value(vertcat(p1, p2), vertcat(v1, v2))), in reversed symbol order
         self.concat = kw.pop("concat", False)
+        # register: the symbols are the USER's own MX symbols handed to ocp.register_state / _control / _algebraic / _parameter /
+        # _variable ("single": one call per symbol; "list": one call with the list of all symbols of a kind, where no scales differ)
+        self.register = kw.pop("register", None)
         # C20: ONE specification fault injected into an otherwise well-posed specification: (kind, position)
         self.fault = kw.pop("fault", None)
         self.der_order = kw.pop("der_order", "declared")    # order of the set_der calls: 'declared' or 'reversed'
@@ -211,12 +214,31 @@ class Spec:
         else:
             ocp = self.ocp = Ocp(**kw)
         S = self.sym
-        S["x"] = [ocp.state(n, scale=self._scale("x", i, n)) for i, n in enumerate(self.states)]
-        S["u"] = [ocp.control(n, scale=self._scale("u", i, n)) for i, n in enumerate(self.controls)]
+        if self.register and not self.fault:
+            def declare(reg, key, sizes, **kw):
+                syms = [ca.MX.sym("own_%s%d" % (key.replace("+", "plus"), i), *(n if isinstance(n, tuple) else (n,))) for i, n in enumerate(sizes)]
+                if self.register == "list" and len(syms) > 1 and not self.scales.get(key):
+                    reg(syms, **kw)
+                else:
+                    for i, (sy, n) in enumerate(zip(syms, sizes)):
+                        reg(sy, **(dict(kw, scale=self._scale(key, i, n)) if key[0] != "p" else kw))
+                return syms
+            S["x"] = declare(ocp.register_state, "x", self.states)
+            S["u"] = declare(ocp.register_control, "u", self.controls)
+        else:
+            S["x"] = [ocp.state(n, scale=self._scale("x", i, n)) for i, n in enumerate(self.states)]
+            S["u"] = [ocp.control(n, scale=self._scale("u", i, n)) for i, n in enumerate(self.controls)]
         S["w"] = [ocp.control(n, order=k, scale=self._scale("w", j, n)) for j, (n, k) in enumerate(self.hoc)]
-        S["z"] = [ocp.algebraic(n, scale=self._scale("z", i, n)) for i, n in enumerate(self.algebraics)]
+        if self.register and not self.fault:
+            S["z"] = declare(ocp.register_algebraic, "z", self.algebraics)
+        else:
+            S["z"] = [ocp.algebraic(n, scale=self._scale("z", i, n)) for i, n in enumerate(self.algebraics)]
         for kind in ("", "control", "control+"):
             g, il = kind.rstrip("+"), kind.endswith("+")
+            if self.register and not self.fault:
+                S[("p", kind)] = declare(ocp.register_parameter, "p" + kind, self.params.get(kind, []), grid=g, include_last=il)
+                S[("v", kind)] = declare(ocp.register_variable, "v" + kind, self.variables.get(kind, []), grid=g, include_last=il)
+                continue
             S[("p", kind)] = [ocp.parameter(*(n if isinstance(n, tuple) else (n,)), grid=g, include_last=il) for n in self.params.get(kind, [])]
             S[("v", kind)] = [ocp.variable(n, grid=g, include_last=il, scale=self._scale("v" + kind, i, n))
                               for i, n in enumerate(self.variables.get(kind, []))]
